@@ -71,10 +71,21 @@ def load(catdir=CATDIR):
     def T(kind, code, args=(), **kw):
         return Tpl(kind, code, args, **kw)
 
+    def more(file, func, kind, text, *items):
+        """further templates for a site that an earlier catalogue file declared (one per clause of its guard)"""
+        for e in entries:
+            if e.key == (file, func, kind, text):
+                for t in items:
+                    t.entry = e
+                    t.idx = len(e.templates)
+                    e.templates.append(t)
+                return
+        raise KeyError('more(): no catalogue entry %r' % ((file, func, kind, text),))
+
     def J(cls, reason):
         assert cls in JCLASSES, cls
         return (cls, reason)
-    env = dict(site=site, T=T, J=J)
+    env = dict(site=site, T=T, J=J, more=more)
     for p in sorted(glob.glob(os.path.join(catdir, '*.py'))):
         exec(compile(open(p).read(), p, 'exec'), dict(env))
     return entries
